@@ -40,7 +40,7 @@ def build(tier, seed):
 
     for k in counts:
         vals = [rng.randrange(1 << 31) for _ in range(k)]
-        for trailing in ([False, True] if k <= 16 or tier == "thorough" else [rng.random() < 0.5]):
+        for trailing in [False, True]:
             tc = ", " if trailing else ""
             if k == 0:
                 tc = ", " if trailing else ""
